@@ -35,11 +35,11 @@ def run(ctx):
     drv = ctx.build("c38")
     # MC: exhaustive exploration of the (as implemented) design; strict invariants outside the pending fingerprints
     ctx.model_check("chain/MCChain", "chain/MCChain" if not ctx.thorough else "chain/MCChainThorough",
-                    timeout=ctx.pick(3000, 7200), workers=4, name="MCChain", coverage=ctx.thorough)
+                    timeout=ctx.pick(3600, 21600), workers=4, name="MCChain", coverage=ctx.thorough)
     # R: TLC-sampled behaviours over larger trees replayed on a real BlockChain
     res = ctx.tlc("chain/MCChain", "chain/MCChainSim" if not ctx.thorough else "chain/MCChainSimThorough",
                   simulate="num=%d" % ctx.pick(40, 400), depth=ctx.pick(9, 11), tags=("MBT",), workers=4,
-                  timeout=ctx.pick(3000, 7200), name="MCChainSim")
+                  timeout=ctx.pick(3600, 21600), name="MCChainSim")
     if res.error or res.timeout:
         raise InfraError("TLC simulation failed: %s\n%s" % (res.error, res.stdout[-2000:]))
     beh = dedupe(res.lines.get("MBT", []))
@@ -47,12 +47,12 @@ def run(ctx):
         raise InfraError("too few behaviours emitted: %d" % len(beh))
     bp = os.path.join(ctx.scratch, "behaviours.json")
     write_json(bp, beh)
-    ctx.drive(drv, ["-mode", "replay", "-in", bp], name="c38-replay", timeout=3600)
+    ctx.drive(drv, ["-mode", "replay", "-in", bp], name="c38-replay", timeout=ctx.pick(3600, 21600))
     # V: recorded random histories validated by the trace specification
     tp = os.path.join(ctx.scratch, "trace.ndjson")
     s, _ = ctx.drive(drv, ["-mode", "record", "-trace", tp, "-n", ctx.pick(300, 3000), "-steps", 14, "-blocks", 7, "-ntx", 3],
-                     name="c38-record", timeout=3600)
-    ok, consumed, total, r = ctx.validate("chain/ChainTrace", tp, ntraces=s["traces"], timeout=ctx.pick(3000, 7200))
+                     name="c38-record", timeout=ctx.pick(3600, 21600))
+    ok, consumed, total, r = ctx.validate("chain/ChainTrace", tp, ntraces=s["traces"], timeout=ctx.pick(3600, 21600))
     if not ok:
         ctx.reject_trace("chain/ChainTrace", tp, consumed, r)
     # Pending candidate findings: the kept replays are executed on the real code; the trace must be a behaviour of
